@@ -186,6 +186,7 @@ TIME_LOOPS = [
     ("reduce", "fn step(a: int, n: int)->int{ display(n) + a + range(400).sum() * 0 }\nlet r = range(1000000).reduce(0, step);"),
     ("recursion", "fn step(n: int)->int{ if(display(n) >= 4000, n, [1, 2].map((x: int)->{ range(400).sum() })[1] * 0 + step(n + 1) + 0) }\nlet r = step(0);"),
     ("tail_recursion", "fn step(n: int, a: int)->int{ if(display(n) >= 100000000, a, step(n + 1, a + range(400).sum() * 0)) }\nlet r = step(0, 0);"),
+    ("tail_recursion_native_body", "fn step(n: int)->int{ if(display(n) < 0, n, step(n + 1)) }\nlet r = step(0);"),
     ("successors", "fn step(n: int)->int{ display(n) + 1 + range(400).sum() * 0 }\nlet r = successors(0, step).get(100000000);"),
     ("filter_first", "fn step(n: int)->bool{ display(n) < 0 && range(400).sum() > 0 }\nlet r = count().to_generator().filter(step).first((x: int)->{true});"),
     ("sort_comparator", "fn c(a: int, b: int)->int{ display(cmp(a, b)) + range(400).sum() * 0 }\nlet r = range(200000).map((x: int)->{(x * 7919) % 200003}).to_array().sort(c).len();"),
